@@ -87,7 +87,7 @@ def compare_case(case, obs, k, fnd, stats, rep):
             if unconstrained or alpha_rejects:
                 stats["unconstrained_rejected"] += 1
             else:
-                fnd.add("delta-rejects-valid", "%s %s" % (d.get("codes"), gc.rejection_shape(gc.canon(case)) or gc.canon(case)),
+                fnd.add("delta-rejects-valid", "%s %s" % (sorted(set(d.get("codes") or [])), gc.rejection_shape(gc.canon(case)) or gc.canon(case)),
                         example(case, j, d, None, "a syntactically valid module is rejected by the second-generation %s" % d.get("stage")))
         else:
             for issue in d.get("wf", []):
@@ -225,7 +225,7 @@ def run(rep, tier, seed, selftest):
             fnd.add("delta-panic", gc.panic_signature(r.get("panic")), example(c, r.get("layout"), r, None, "the second-generation parser panicked on a valid module"))
             stats["delta_panics"] += 1
         elif r["o"] == "rejected" and c["focus"] not in gc.UNCONSTRAINED:
-            fnd.add("delta-rejects-valid", "%s %s" % (r.get("codes"), gc.rejection_shape(gc.canon(c)) or gc.canon(c)),
+            fnd.add("delta-rejects-valid", "%s %s" % (sorted(set(r.get("codes") or [])), gc.rejection_shape(gc.canon(c)) or gc.canon(c)),
                     example(c, r.get("layout"), r, None, "a valid module is rejected"))
         elif r["o"] == "ok":
             for issue in r.get("wf", []):
